@@ -40,6 +40,7 @@ type plan struct {
 	tier    string
 	seeds   []seed
 	fieldsC [][]field // lazily filled, see fields()
+	walkC   []*walker // lazily filled, see walk()
 	famC    []famMod  // lazily built, see family()
 	crash   map[string]bool // "seed/field/val" of single deviations that killed the process
 	rawMax  int
@@ -53,14 +54,22 @@ func newPlan(tier string) *plan {
 		p.rawMax = 3
 	}
 	p.fieldsC = make([][]field, len(p.seeds))
+	p.walkC = make([]*walker, len(p.seeds))
 	return p
 }
 
 // fields returns the field map of a seed (computed on first use: a child that is restarted after a
 // process death must start in milliseconds).
+func (p *plan) walk(si int) *walker {
+	if p.walkC[si] == nil {
+		p.walkC[si] = walkModule(p.seeds[si].B)
+	}
+	return p.walkC[si]
+}
+
 func (p *plan) fields(si int) []field {
 	if p.fieldsC[si] == nil {
-		p.fieldsC[si] = fieldMap(p.seeds[si].B)
+		p.fieldsC[si] = p.walk(si).fields
 		if p.fieldsC[si] == nil {
 			p.fieldsC[si] = []field{}
 		}
@@ -172,6 +181,9 @@ func (p *plan) allChunks(phase int) []chunk {
 		for fi := range p.fields(si) {
 			cs = append(cs, chunk{Cat: "field", Seed: si, A: fi})
 		}
+		if len(p.walk(si).types) > 0 {
+			cs = append(cs, chunk{Cat: "retype", Seed: si})
+		}
 	}
 	cs = append(cs, chunk{Cat: "hdr"})
 	cs = append(cs, chunk{Cat: "raw", A: -1})
@@ -276,6 +288,32 @@ func (p *plan) expand(c chunk, yield func(in input)) {
 			if len(r) != f.Len {
 				raw := applyEdits(s.B, fs, map[int][]byte{c.A: r}, false)
 				yield(input{B: raw, Tag: fmt.Sprintf("field:%s:%d(%s@%d)=%s:raw", s.Name, c.A, f.Kind, f.Off, devNames[v]), ArgSets: 3, Field: c.A, Val: v})
+			}
+		}
+	case "retype":
+		// every position that names a type gets every other type: the seven value/reference types, and for
+		// block types also the empty type and every type index of the module (so that a type check that has
+		// been weakened to an arity check is confronted with same-arity, different-type alternatives)
+		s := p.seeds[c.Seed]
+		w := p.walk(c.Seed)
+		for _, ts := range w.types {
+			if ts.Len != 1 {
+				continue
+			}
+			cands := []byte{i32, i64, f32, f64, v128, fref, xref}
+			if ts.Block {
+				cands = append(cands, 0x40)
+				for k := 0; k < w.nTypes && k < 64; k++ {
+					cands = append(cands, byte(k))
+				}
+			}
+			for _, v := range cands {
+				if v == s.B[ts.Off] {
+					continue
+				}
+				b := append([]byte{}, s.B...)
+				b[ts.Off] = v
+				yield(input{B: b, Tag: fmt.Sprintf("retype:%s:%s@%d=%02x", s.Name, ts.Kind, ts.Off, v), ArgSets: 3})
 			}
 		}
 	case "pair":
